@@ -103,7 +103,12 @@ func (r *Reader) readEntry() (*Entry, error) {
 			return r.parseEntryData(record.data)
 
 		case RecordTypeFirst:
-			// Start of a fragmented entry
+			// Start of a fragmented entry. (A damaged header can announce a
+			// first fragment of length zero; its checksum, that of no data,
+			// is then easily right.)
+			if len(record.data) == 0 {
+				return nil, fmt.Errorf("%w: empty first fragment", ErrCorruptRecord)
+			}
 			r.fragments = append(r.fragments, record.data)
 			r.currType = record.data[0] // Save the operation type
 
